@@ -133,6 +133,6 @@ def run(check, ctx):
     from . import c_salsa
     c_salsa.salsa_tables(check, ctx, groups=("stream",))
     from . import aead_compose
-    aead_compose.compose_tables(check, ctx, modes=("eax", "siv", "ccm", "gcm", "ocb", "openpgp"))
+    aead_compose.compose_tables(check, ctx, modes=("eax", "siv", "ccm", "gcm", "ocb", "chachapoly", "openpgp"))
     check.undecided.append("the block primitives beyond the published vectors and the AES.c / AESNI.c sibling table; "
                            "mode geometries outside the enumerated tables")
